@@ -689,6 +689,13 @@ func (fr *FnRun) value(st *State, v ssa.Value) Val {
 			o = fr.ex.namedObj("global."+x.Pkg.Pkg.Name()+"."+x.Name(), x.Type().(*types.Pointer).Elem())
 			fr.ex.globals[x] = o
 		}
+		if _, have := st.heap[o]; !have {
+			if cm := fr.ex.constGlobalMap(x); cm != nil {
+				mt := under(o.T).(*types.Map)
+				st.heap[o] = &MapV{Nil: tFalse, Obj: cm.obj, K: mt.Key(), V: mt.Elem()}
+				fr.ex.constMapObjs[cm.obj] = cm.val
+			}
+		}
 		return &PtrV{Nil: tFalse, Obj: o, Elem: x.Type().(*types.Pointer).Elem()}
 	case *ssa.Builtin:
 		return &FuncV{Nil: tFalse, Name: "builtin:" + x.Name()}
